@@ -1721,7 +1721,11 @@ parse_citation:
 					printf("<text:note text:id=\"fn%d\" text:note-class=\"footnote\"><text:note-body>", temp_short);
 					temp_note = stack_peek_index(scratch->used_footnotes, temp_short - 1);
 
-					mmd_export_token_tree_opendocument(out, source, temp_note->content, scratch);
+					// A note is not expanded again inside its own expansion
+					temp_token = temp_note->content;
+					temp_note->content = NULL;
+					mmd_export_token_tree_opendocument(out, source, temp_token, scratch);
+					temp_note->content = temp_token;
 					print_const("</text:note-body></text:note>");
 				} else {
 					// This is the first time this note was used
@@ -1730,7 +1734,11 @@ parse_citation:
 					printf("<text:note text:id=\"fn%d\" text:note-class=\"footnote\"><text:note-body>", temp_short);
 					temp_note = stack_peek_index(scratch->used_footnotes, temp_short - 1);
 
-					mmd_export_token_tree_opendocument(out, source, temp_note->content, scratch);
+					// A note is not expanded again inside its own expansion
+					temp_token = temp_note->content;
+					temp_note->content = NULL;
+					mmd_export_token_tree_opendocument(out, source, temp_token, scratch);
+					temp_note->content = temp_token;
 					print_const("</text:note-body></text:note>");
 				}
 
